@@ -263,6 +263,9 @@ fn main() {
     let seed: u64 = get("--seed").and_then(|x| x.parse().ok()).unwrap_or(1);
     let samples: usize = get("--samples").and_then(|x| x.parse().ok()).unwrap_or(3);
     let arrays_file = get("--arrays");
+    let programs_file = get("--programs");
+    let prog_stride: usize = get("--prog-stride").and_then(|x| x.parse().ok()).unwrap_or(1).max(1);
+    let mut programs_note = String::new();
     let stride: usize = get("--stride").and_then(|x| x.parse().ok()).unwrap_or(1).max(1);
     let text = std::fs::read_to_string(&table_file).expect("table");
     let table = text.lines().find_map(|l| parse_tagged(l, "PYBIND")).expect("PYBIND line");
@@ -327,6 +330,73 @@ fn main() {
             py.run(&CString::new(code).unwrap(), Some(&locals), None)?;
             let rr: String = locals.get_item("rr")?.unwrap().extract()?;
             rep.check(format!("{pyname}|from_re"), rr.starts_with("1.5") && !rr.contains("NaN"), || json!({"repr": rr}));
+        }
+        // ---- whole programs (Programs.tla): the same expression DAG written against the Python classes and run on the
+        //      wrapped Rust type; every node's repr must equal the Rust rendering ("for all programs written against them")
+        if let Some(pf) = &programs_file {
+            let ptext = std::fs::read_to_string(pf).expect("programs file");
+            let syntax: BTreeMap<String, String> = table["prog_syntax"].as_array().map(|a| a.iter().map(|r| (r[0].as_str().unwrap().to_string(), r[1].as_str().unwrap().to_string())).collect()).unwrap_or_default();
+            let not_in_python: Vec<String> = table["not_in_python"].as_array().map(|a| a.iter().map(|r| r.as_str().unwrap().to_string()).collect()).unwrap_or_default();
+            let progs: Vec<Value> = ptext.lines().filter_map(|l| parse_tagged(l, "PROG")).collect();
+            let mut skipped = 0u64;
+            for (pi, prog) in progs.iter().enumerate() {
+                if (pi + seed as usize) % prog_stride != 0 { continue; }
+                let nodes = prog["nodes"].as_array().unwrap();
+                if nodes.iter().any(|n| not_in_python.iter().any(|o| o == n["op"].as_str().unwrap_or(""))) { skipped += 1; continue; }
+                let nin = prog["inputs"].as_u64().unwrap() as usize;
+                for class in table["classes"].as_array().unwrap() {
+                    let (pyname, ty) = (class["py"].as_str().unwrap(), class["ty"].as_str().unwrap());
+                    let cargs: Vec<String> = class["args"].as_array().unwrap().iter().map(|a| a.as_str().unwrap().to_string()).collect();
+                    let nested = ty.contains('<');
+                    let mk = |rng: &mut Rng| -> BTreeMap<String, f64> {
+                        let mut m = BTreeMap::new();
+                        for (i, a) in cargs.iter().enumerate() {
+                            let v = |rng: &mut Rng| if i == 0 { 0.3 + 1.5 * rng.unit() } else { rng.unit() * 4.0 - 2.0 };
+                            if nested { let r = v(rng); m.insert(format!("{a}.re"), r); m.insert(format!("{a}.eps"), rng.unit() * 4.0 - 2.0); } else { m.insert(a.clone(), v(rng)); }
+                        }
+                        m
+                    };
+                    let ins: Vec<BTreeMap<String, f64>> = (0..nin).map(|_| mk(&mut rng)).collect();
+                    let mut code = String::from("__err = None\ntry:\n");
+                    for (i, p) in ins.iter().enumerate() { code += &format!("    v{} = {}\n", i + 1, py_ctor(pyname, ty, &cargs, p)); }
+                    let mut evs = vec![];
+                    for (k, nd_) in nodes.iter().enumerate() {
+                        let ev = Ev::from_json(nd_).unwrap();
+                        let (a, b, c) = (format!("v{}", ev.a), format!("v{}", ev.b), format!("v{}", ev.c));
+                        let sc = pyf(ev.s);
+                        let Some(tpl) = syntax.get(&ev.op) else { eprintln!("tool error: operation {} has no Python syntax in PyBind.tla and is not listed in NotInPython", ev.op); std::process::exit(2); };
+                        let sc_cls = if nested && ev.op == "from_f" { format!("nd.Dual64({sc}, 0.0)") } else { sc.clone() };
+                        let e = tpl.replace("{a}", &a).replace("{b}", &b).replace("{c}", &c).replace("{s}", &sc_cls).replace("{n}", &ev.n.to_string()).replace("{cls}", pyname);
+                        code += &format!("    v{} = {}\n", nin + k + 1, e);
+                        evs.push(ev);
+                    }
+                    code += &format!("    __o = [repr(w) for w in [{}]]\nexcept BaseException as __e:\n    __err = type(__e).__name__ + ': ' + str(__e)[:200]\n    __o = []\n",
+                                     (0..nodes.len()).map(|k| format!("v{}", nin + k + 1)).collect::<Vec<_>>().join(", "));
+                    py.run(&CString::new(code.clone()).unwrap(), Some(&locals), Some(&locals))?;
+                    let got: Vec<String> = locals.get_item("__o")?.unwrap().extract()?;
+                    let perr: Option<String> = locals.get_item("__err")?.unwrap().extract()?;
+                    macro_rules! rp { ($T:ty) => {{
+                        let mut regs: Vec<$T> = ins.iter().map(|p| <$T>::from_json(&value_json(ty, &cargs, p)).unwrap()).collect();
+                        let mut out: Result<Vec<String>, String> = Ok(vec![]);
+                        for ev in &evs {
+                            match <$T>::apply(&regs, ev) {
+                                Ok(Out::Val(v)) => { if let Ok(o) = out.as_mut() { o.push(v.show()); } regs.push(v); }
+                                Ok(_) => { out = Err(format!("operation {} yields no value", ev.op)); break; }
+                                Err(e) => { out = Err(e); break; }
+                            }
+                        }
+                        out
+                    }}; }
+                    let want = match ty { "Dual" => rp!(Dual64), "Dual2" => rp!(Dual2_64), "Dual3" => rp!(Dual3_64), "HyperDual" => rp!(HyperDual64),
+                        "HHD" => rp!(HyperHyperDual64), "Dual2<Dual>" => rp!(Dual2<Dual64, f64>), "Dual3<Dual>" => rp!(Dual3<Dual64, f64>),
+                        "HyperDual<Dual>" => rp!(HyperDual<Dual64, f64>), other => Err(format!("unknown type {other}")) };
+                    let want = match want { Ok(v) => v, Err(e) => { eprintln!("tool error: {e}"); std::process::exit(2); } };
+                    let bad = if perr.is_some() { Some(0) } else { (0..want.len()).find(|&k| got.get(k) != Some(&want[k])) };
+                    rep.check(format!("{pyname}|program n{nin}"), bad.is_none(), || json!({"python_error": perr, "first_differing_node": bad.map(|k| json!({"node": nodes[k], "python": got.get(k), "rust": want[k]})), "code": code}));
+                    for ev in &evs { *rep.per_case.entry(format!("prog-op|{}", ev.op)).or_insert(0) += 1; }
+                }
+            }
+            programs_note = format!("{} programs read, {} skipped (operation not exposed in Python)", progs.len(), skipped);
         }
         // ---- PyArrays.tla: behaviours over a heap of dual scalars, float arrays and object arrays
         let mut numpy = "not requested".to_string();
@@ -587,5 +657,5 @@ fn main() {
         std::process::exit(2);
     }
     println!("{}", json!({"checks": rep.checks, "distinct_cases": rep.per_case.len(), "per_case": rep.per_case, "n_violations": rep.n_viol,
-                          "violations": rep.viol, "samples": rep.samples, "numpy": numpy_note}));
+                          "violations": rep.viol, "samples": rep.samples, "numpy": numpy_note, "programs": programs_note}));
 }
